@@ -95,7 +95,7 @@ int main(int argc, char **argv) {
                     "trace-stores) to memory that is not the coroutine's own stack or its own allocation is a scheduling point and is recorded; "
                     "ALL schedules with <=" + std::to_string(bound) + " preemptions (2 threads) / <=" + std::to_string(bound3) + " (3 threads) are "
                     "executed for " + std::to_string(ncfg) + " (template, values) configurations (17 templates covering every tag kind incl. "
-                    "sort/group x same value / different values); after each: every output equals a fresh single render, the tag cache dump and "
+                    "sort/group x same value / different values / a value whose loop sets are pointer-to-value members); after each: every output equals a fresh single render, the tag cache dump and "
                     "the values' Stringify are unchanged, stream prefixes intact, and no shared granule was written by one render and touched "
                     "by another (conflict-free => every interleaving is equivalent to the serial one)";
         plan.bounds = "preemptions<=" + std::to_string(bound) + " (2 threads), <=" + std::to_string(bound3) + " (3 threads)";
@@ -144,8 +144,8 @@ int main(int argc, char **argv) {
                 }
             };
             plan.stages.push_back(s2);
-            plan.rule += " || sequential: every history of <=" + std::to_string(depth) + " steps over {render value 0/1/2 into a fresh or pre-filled "
-                         "stream through the cache, replace the cache by its copy, move the cache} for 17 templates: each render equals the fresh "
+            plan.rule += " || sequential: every history of <=" + std::to_string(depth) + " steps over {render value 0..3 (3 = sets reached through pointer-to-value members) into a fresh or pre-filled "
+                         "stream through the cache, replace the cache by its copy, move the cache} for 17 templates: each render equals the fresh render; before them every value rendered into a stream already holding 0..72 units; each equals the fresh "
                          "render, cache dump and values unchanged";
         }
         plan.assumptions = {"sequential consistency; allocator internals and libc are outside the monitor",
